@@ -90,6 +90,20 @@ func GenPlan(r *rand.Rand, ncells int, pf Profile, tag string) *PNode {
 	}
 	r.Shuffle(len(root.Kids), func(i, j int) { root.Kids[i], root.Kids[j] = root.Kids[j], root.Kids[i] })
 	root.Par = r.Intn(2) == 0
+	// switches: some cached children are only used while a switch cell's
+	// version is odd, so their keys drop out of the computation and return
+	for _, n := range append([]*PNode{root}, l1...) {
+		if len(n.Kids) == 0 || r.Intn(2) != 0 {
+			continue
+		}
+		n.KidOn = make([]int, len(n.Kids))
+		for i := range n.KidOn {
+			n.KidOn[i] = -1
+			if r.Intn(2) == 0 {
+				n.KidOn[i] = r.Intn(ncells)
+			}
+		}
+	}
 
 	all := append([]*PNode{root}, append(l1, l2...)...)
 	// timers
@@ -143,6 +157,9 @@ func GenRandom(r *rand.Rand, pf Profile) *Scenario {
 	sc := &Scenario{Name: "random"}
 	sc.YieldSeed = r.Int63()
 	sc.Intensity = 30 + r.Intn(31)
+	if r.Intn(5) >= 2 {
+		sc.WTRDelayUS = 300 + r.Intn(1700)
+	}
 	sc.Cells = 1 + r.Intn(5)
 	nrr := 1 + r.Intn(4)
 	for i := 0; i < nrr; i++ {
@@ -179,6 +196,11 @@ func GenRandom(r *rand.Rand, pf Profile) *Scenario {
 				ops = append(ops, Op{Kind: "progress", US: 300 + r.Intn(1500)})
 			case x < 18 && stops < nrr:
 				stops++
+				if sc.WTRDelayUS > 0 && r.Intn(2) == 0 {
+					// aim the Stop at the write-then-read delay of a re-run
+					ops = append(ops, Op{Kind: "write", Cell: r.Intn(sc.Cells), Style: styleFor(r)},
+						Op{Kind: "sleep", US: sc.WTRDelayUS/4 + r.Intn(sc.WTRDelayUS)})
+				}
 				ops = append(ops, Op{Kind: "stop", RR: r.Intn(nrr)})
 			case x < 20 && pf.Cache:
 				ops = append(ops, Op{Kind: "purge", RR: r.Intn(nrr)})
@@ -228,11 +250,21 @@ func Matrix(points, actions []string) []MatrixCell {
 // Cells: 0 = direct root leaf of every rerunner (target of "invalidate" /
 // "double-invalidate"), 1 = strobe-style leaf (target of "strobe"), 2 = read only through
 // cached children together with cell 3 (target of "invalidate-child-leaf"),
-// 3 = the children's other leaf, 4 = conditional leaf.
+// 3 = the children's other leaf, 4 = conditional leaf, 5 = switch: cached
+// child "s" (leaf 2) of rerunner 0 and child "t" (leaf 3) of rerunner 1 are
+// used only while cell 5's version is odd; the base workload switches them
+// off, changes their leaves, and switches them on again.
+//
+// In about 60 % of the scenarios reactive.WriteThenReadDelay is 0.3-2 ms and
+// the half-way Stop of rerunner 2 is aimed at the delay of a re-run (write to
+// a cell it reads, sleep part of the delay, Stop).
 func GenMatrix(r *rand.Rand, m MatrixCell, pf Profile) *Scenario {
-	sc := &Scenario{Name: "matrix", Cells: 5, WaitFirst: true}
+	sc := &Scenario{Name: "matrix", Cells: 6, WaitFirst: true}
 	sc.YieldSeed = r.Int63()
 	sc.Intensity = 20 + r.Intn(25)
+	if r.Intn(5) >= 2 {
+		sc.WTRDelayUS = 300 + r.Intn(1700)
+	}
 	sc.ParallelEnd = r.Intn(2) == 0
 
 	g := &PNode{Name: "g", Key: "g", Leaves: []int{2}}
@@ -241,10 +273,17 @@ func GenMatrix(r *rand.Rand, m MatrixCell, pf Profile) *Scenario {
 	if !pf.Cache && r.Intn(2) == 0 {
 		a.Leaves = append(a.Leaves, 0)
 	}
+	sw := &PNode{Name: "s", Key: "s", Leaves: []int{2}}
 	root0 := &PNode{Name: "r0", Leaves: []int{0, 1}, Cond: []CondLeaf{{On: 1, Then: 4}}, Kids: []*PNode{a, b, g}, Par: r.Intn(2) == 0}
 	if r.Intn(2) == 0 {
 		root0.Kids = append(root0.Kids, a)
 	}
+	root0.Kids = append(root0.Kids, sw)
+	root0.KidOn = make([]int, len(root0.Kids))
+	for i := range root0.KidOn {
+		root0.KidOn[i] = -1
+	}
+	root0.KidOn[len(root0.Kids)-1] = 5
 	root0.Fail = map[int]string{2 + r.Intn(2): "retry"}
 	if pf.Cache {
 		if r.Intn(2) == 0 {
@@ -255,7 +294,8 @@ func GenMatrix(r *rand.Rand, m MatrixCell, pf Profile) *Scenario {
 		}
 	}
 	a1 := &PNode{Name: "a", Key: "a", Leaves: []int{1, 2}}
-	root1 := &PNode{Name: "r1", Leaves: []int{0}, Kids: []*PNode{a1}}
+	t1 := &PNode{Name: "t", Key: "t", Leaves: []int{3}}
+	root1 := &PNode{Name: "r1", Leaves: []int{0}, Kids: []*PNode{a1, t1}, KidOn: []int{-1, 5}}
 	if r.Intn(2) == 0 {
 		root1.Cond = []CondLeaf{{On: 0, Then: 4}}
 	}
@@ -270,17 +310,26 @@ func GenMatrix(r *rand.Rand, m MatrixCell, pf Profile) *Scenario {
 		{Kind: "write", Cell: 0, Style: WInvalidate}, pace(),
 		{Kind: "write", Cell: 1, Style: WStrobe}, pace(),
 		{Kind: "write", Cell: 2, Style: WInvalidate}, pace(),
-		{Kind: "stop", RR: 2},
-		{Kind: "write", Cell: 1, Style: WStrobe}, pace(),
-		{Kind: "write", Cell: 0, Style: WDouble}, pace(),
-		{Kind: "write", Cell: 3, Style: WStrobe}, pace(),
 	}
+	if sc.WTRDelayUS > 0 {
+		// rerunner 2 reads cell 1: its re-run is inside the write-then-read delay when Stop arrives
+		ops = append(ops, Op{Kind: "write", Cell: 1, Style: WStrobe}, Op{Kind: "sleep", US: sc.WTRDelayUS/4 + r.Intn(sc.WTRDelayUS/2+1)})
+	}
+	ops = append(ops,
+		Op{Kind: "stop", RR: 2},
+		Op{Kind: "write", Cell: 1, Style: WStrobe}, pace(),
+		Op{Kind: "write", Cell: 5, Style: styleFor(r)}, pace(), // switch off: keys s, t drop out
+		Op{Kind: "write", Cell: 0, Style: WDouble}, pace(),
+		Op{Kind: "write", Cell: 3, Style: WStrobe}, pace(),
+		Op{Kind: "write", Cell: 2, Style: WInvalidate}, pace(),
+		Op{Kind: "write", Cell: 5, Style: styleFor(r)}, pace(), // switch on again
+	)
 	if pf.Cache {
 		ops = append(ops, Op{Kind: "purge", RR: 0}, Op{Kind: "write", Cell: 0, Style: WInvalidate}, pace())
 	}
 	// a few seeded extras
 	for i := 0; i < r.Intn(3); i++ {
-		ops = append(ops, Op{Kind: "write", Cell: r.Intn(5), Style: styleFor(r)}, pace())
+		ops = append(ops, Op{Kind: "write", Cell: r.Intn(5), Style: styleFor(r)}, pace()) // never the switch: it stays on
 	}
 	sc.Writers = [][]Op{ops}
 	inj := &InjSpec{Point: m.Point, Visit: m.Visit, RR: 0}
